@@ -13,6 +13,7 @@ import NcVerif.Driver.ConnectD
 import NcVerif.Driver.XmlD
 import NcVerif.Driver.JunosD
 import NcVerif.Driver.XmlDocD
+import NcVerif.Driver.BuildersD
 open NcVerif.Driver
 
 structure DState where
@@ -31,6 +32,7 @@ def stepLine (st : DState) (line : String) : DState × String :=
   | "js" :: rest => (st, junosCmd rest)
   | "xt" :: rest => (st, xmlTextCmd rest)
   | "xd" :: rest => (st, xmlDocCmd rest)
+  | "bd" :: rest => (st, buildersCmd rest)
   | "ss" :: rest => let (s', out) := sessionCmd st.sess rest; ({ st with sess := s' }, out)
   | _ => (st, "bad-model")
 
